@@ -67,6 +67,12 @@ func (e *Ex) String() string {
 			p = append(p, a.String())
 		}
 		s = e.Name + "(" + strings.Join(p, ", ") + ")"
+	case "tuple":
+		var p []string
+		for _, a := range e.Args {
+			p = append(p, a.String())
+		}
+		s = "<" + strings.Join(p, "; ") + ">"
 	case "ite":
 		s = "ite(" + e.Cond.String() + " ? " + e.Args[0].String() + " : " + e.Args[1].String() + ")"
 	}
@@ -179,6 +185,10 @@ func mkPow(a *Ex, n int) *Ex {
 }
 
 func mkCall(name string, args ...*Ex) *Ex {
+	// rounding the constant 0 is 0 for every rounding helper of the specifications
+	if (name == "ru" || name == "r1") && len(args) == 1 && args[0].Op == "const" && args[0].C.Sign() == 0 {
+		return args[0]
+	}
 	if name == "min" || name == "max" {
 		args = append([]*Ex(nil), args...)
 		sort.SliceStable(args, func(i, j int) bool { return args[i].String() < args[j].String() })
@@ -566,4 +576,120 @@ func parseFormulas(text string, dom func(string) []string) map[string]*Ex {
 		defs[name] = e
 	}
 	return defs
+}
+
+// ---------------------------------------------------------------------------
+// ite normal form: every conditional is lifted out of arithmetic (f(ite(c,a,b))
+// = ite(c,f(a),f(b))) and the resulting decision tree is ordered like a BDD
+// (metric atoms before numeric comparisons, then by text), with equal branches
+// merged. Two formulas that differ only in WHERE they branch — "compute
+// piecewise, then round" versus "round in each branch", a shared final
+// statement versus one return per branch — have the same normal form.
+
+func cndLess(a, b *Cnd) bool {
+	if a.Kind != b.Kind {
+		return a.Kind == "in"
+	}
+	return a.String() < b.String()
+}
+
+func isIte(t *Ex) bool { return t.Op == "ite" }
+
+func restrictIte(t *Ex, key string, val bool) *Ex {
+	if !isIte(t) || !strings.Contains(t.String(), key) {
+		return t
+	}
+	if t.Cond.String() == key {
+		if val {
+			return restrictIte(t.Args[0], key, val)
+		}
+		return restrictIte(t.Args[1], key, val)
+	}
+	a, b := restrictIte(t.Args[0], key, val), restrictIte(t.Args[1], key, val)
+	if a.String() == b.String() {
+		return a
+	}
+	return &Ex{Op: "ite", Cond: t.Cond, Args: []*Ex{a, b}}
+}
+
+func iteBDD(c *Cnd, a, b *Ex) *Ex {
+	top := c
+	if isIte(a) && cndLess(a.Cond, top) {
+		top = a.Cond
+	}
+	if isIte(b) && cndLess(b.Cond, top) {
+		top = b.Cond
+	}
+	key := top.String()
+	if key == c.String() {
+		a2, b2 := restrictIte(a, key, true), restrictIte(b, key, false)
+		if a2.String() == b2.String() {
+			return a2
+		}
+		return &Ex{Op: "ite", Cond: c, Args: []*Ex{a2, b2}}
+	}
+	hi := iteBDD(c, restrictIte(a, key, true), restrictIte(b, key, true))
+	lo := iteBDD(c, restrictIte(a, key, false), restrictIte(b, key, false))
+	if hi.String() == lo.String() {
+		return hi
+	}
+	return &Ex{Op: "ite", Cond: top, Args: []*Ex{hi, lo}}
+}
+
+func rebuild(t *Ex, args []*Ex) *Ex {
+	switch t.Op {
+	case "sum":
+		return mkSum(args...)
+	case "prod":
+		return mkProd(args...)
+	case "pow":
+		return mkPow(args[0], t.N)
+	case "div":
+		return mkDiv(args[0], args[1])
+	case "call":
+		return mkCall(t.Name, args...)
+	}
+	return t
+}
+
+func liftOp(t *Ex, args []*Ex) *Ex {
+	for i, a := range args {
+		if isIte(a) {
+			hi := append(append([]*Ex(nil), args[:i]...), a.Args[0])
+			hi = append(hi, args[i+1:]...)
+			lo := append(append([]*Ex(nil), args[:i]...), a.Args[1])
+			lo = append(lo, args[i+1:]...)
+			return iteBDD(a.Cond, liftOp(t, hi), liftOp(t, lo))
+		}
+	}
+	return rebuild(t, args)
+}
+
+func liftCmp(op string, l, r, a, b *Ex) *Ex {
+	if isIte(l) {
+		return iteBDD(l.Cond, liftCmp(op, l.Args[0], r, a, b), liftCmp(op, l.Args[1], r, a, b))
+	}
+	if isIte(r) {
+		return iteBDD(r.Cond, liftCmp(op, l, r.Args[0], a, b), liftCmp(op, l, r.Args[1], a, b))
+	}
+	return iteBDD(&Cnd{Kind: "cmp", Op: op, L: l, R: r}, a, b)
+}
+
+// normIte returns the ite normal form of t.
+func normIte(t *Ex) *Ex {
+	switch t.Op {
+	case "const", "sym":
+		return t
+	case "ite":
+		a, b := normIte(t.Args[0]), normIte(t.Args[1])
+		if t.Cond.Kind == "cmp" {
+			return liftCmp(t.Cond.Op, normIte(t.Cond.L), normIte(t.Cond.R), a, b)
+		}
+		return iteBDD(t.Cond, a, b)
+	}
+	args := make([]*Ex, len(t.Args))
+	for i, a := range t.Args {
+		args[i] = normIte(a)
+	}
+	return liftOp(t, args)
 }
